@@ -69,6 +69,11 @@ func makeProbe(t *rapid.T, m *Machine, a Action) *Action {
 		p.Sig = 1 + uniform(t, 3, "bad-sig")
 	case a.Kind == "updateParams":
 		return nil // every generated parameter update is a probe already
+	case a.Kind == "govSubmit":
+		if a.Module == "" || a.Module == "text" || a.Mode == 1 {
+			return nil
+		}
+		p.Mode = 1 // the same proposal, the carried update names the proposer as authority
 	case a.Avs != nil:
 		x := *a.Avs
 		p.Avs = &x
@@ -186,3 +191,45 @@ func authDynamic(m *Machine, w map[string]int) map[string]int {
 }
 
 func TestC10(t *testing.T) { runWorldPropWith(t, "C10", makeProbe) }
+
+// the governance side of the property: on chains whose governance can be funded, proposals
+// carrying parameter updates are submitted, funded and voted on by validators and by everybody
+// else while the validator set changes; parameters may change only through a passed proposal
+// (or, on testnet chain ids, a direct update), and a proposal passes only with the majority of
+// the voting power consensus knows (inv_gov.go)
+func init() {
+	base := *worldProps["C10"]
+	base.Name = "C10Gov"
+	base.Config = func(t *rapid.T) sim.Config {
+		cfg := govConfig(t)
+		if rapid.IntRange(0, 4).Draw(t, "testnet?") == 0 {
+			cfg.ChainID = utils.TestnetChainID + "-1"
+		}
+		return cfg
+	}
+	base.Gen = GenOpts{HostilePct: 2, ExtremePct: 0, Anchor: true, Tempos: []int{3, 10, 30}, CapBits: 40, ClampBits: 40,
+		Weights: map[string]int{
+			"nextBlock": 28, "govSubmit": 14, "govDeposit": 5, "govVote": 26, "updateParams": 6, "depositLST": 3, "delegate": 5, "undelegate": 3,
+			"optIn": 3, "optOut": 3, "setKey": 3, "slash": 1, "msgUnjail": 1,
+		}}
+	base.MinSteps, base.MaxSteps = 40, 120
+	base.Invariants = func() []Invariant { return []Invariant{newAuthInv(), newGovInv()} }
+	base.Adapt = nil
+	base.Known = nil
+	base.NonTrivial = func(m *Machine, invs []Invariant) (bool, []string) {
+		a := invs[0].(*authInv)
+		g := invs[1].(*govInv)
+		for k, v := range a.Probes {
+			m.Labels["probe:"+k] += v
+		}
+		m.Labels["gov:proposals-tallied"] += g.Tallies
+		m.Labels["gov:proposals-passed"] += g.Passed
+		m.Labels["gov:tally-agrees-with-model"] += g.Agree
+		m.Labels["gov:parameter-sets-changed-by-passed-proposal"] += g.ByGov
+		m.Labels["gov:parameter-sets-changed-by-testnet-tx"] += g.ByTestnetTx
+		return g.Tallies >= 1 && (g.Passed >= 1 || g.ByTestnetTx >= 1), nil
+	}
+	registerWorldProp(&base)
+}
+
+func TestC10Gov(t *testing.T) { runWorldPropWith(t, "C10Gov", makeProbe) }
